@@ -716,6 +716,50 @@ func c11Worker(args []string) int {
 			}
 			gen(0)
 		}
+		if j.Replay != nil {
+			// replay mode: the recorded schedule is executed 3 times without exploration
+			count := map[string]int{}
+			what := map[string]string{}
+			var lastEx *vsync.Execution
+			for k := 0; k < 3; k++ {
+				ex, bad, outcome, err := c11RunOnce(sc, j.Replay)
+				if err != nil {
+					res.Err = err.Error()
+					break
+				}
+				lastEx = ex
+				if ex.Diverged != "" {
+					res.Nondet = "replay diverged: " + ex.Diverged
+				}
+				res.Outcomes[outcome]++
+				seen := map[string]bool{}
+				for _, b := range bad {
+					if strings.HasPrefix(b, "OBS\t") {
+						obs := strings.TrimPrefix(b, "OBS\t")
+						if allowed[obs] {
+							continue
+						}
+						b = "not-serializable\toutcome [" + obs + "] is produced by no sequential order of the requests"
+					}
+					p := strings.SplitN(b, "\t", 2)
+					if !seen[p[0]] {
+						seen[p[0]] = true
+						count[p[0]]++
+						what[p[0]] = p[1]
+					}
+				}
+			}
+			res.Executions["replay"] = 3
+			for cl, n := range count {
+				v := c11Viol{Class: cl, What: what[cl], Schedule: j.Replay, Repro: n}
+				if lastEx != nil {
+					v.Trace = traceOf(lastEx)
+				}
+				res.Viol = append(res.Viol, v)
+			}
+			b, _ := json.Marshal(res)
+			return string(b)
+		}
 		seenViol := map[string]bool{}
 		total := 0
 		deadline := time.Now().Add(20 * time.Minute)
@@ -841,7 +885,34 @@ func runC11(c *vlib.Ctx) {
 	}
 	var jobs []string
 	var names []string
+	if c.ReplayFile != "" {
+		// vcheck C11 --replay <file>: run the recorded schedule of the recorded scenario, nothing else
+		var rf struct {
+			Key    string
+			Replay struct {
+				Scenario string
+				Schedule []int
+			}
+		}
+		b, err := os.ReadFile(c.ReplayFile)
+		if err == nil {
+			err = json.Unmarshal(b, &rf)
+		}
+		if err != nil || rf.Replay.Scenario == "" {
+			c.Violate("harness:replay-file", fmt.Sprintf("%s is not a C11 replay file: %v", c.ReplayFile, err), nil)
+			return
+		}
+		if rf.Replay.Schedule == nil {
+			rf.Replay.Schedule = []int{}
+		}
+		jb, _ := json.Marshal(c11Job{Scenario: rf.Replay.Scenario, Replay: rf.Replay.Schedule})
+		jobs, names = []string{string(jb)}, []string{rf.Replay.Scenario}
+		c.Set("replayed", c.ReplayFile)
+	}
 	for _, s := range c11Scenarios() {
+		if c.ReplayFile != "" {
+			break
+		}
 		if only := os.Getenv("VERIF_C11_ONLY"); only != "" && !strings.HasPrefix(s.name, only) {
 			continue // debugging aid; registered commands never set it
 		}
